@@ -24,7 +24,7 @@
 //     equality: every other dummy tour stays), exactly one occurrence of d leaves dummy_ids_sorted, which stays sorted (and
 //     does not hold d any more if it was duplicate-free); same_but_dummies -- every other component is the same.
 // (3) spawn_vehicle_to_replace_dummy_tour(&self, d, vt): Err if d is not a dummy; C01: Err if a node of the dummy tour is not
-//     compatible with the type; on Ok there is an intermediate schedule `mid` = self without the dummy (dummy_deleted, the
+//     compatible with the type; D11: Err if all 2^16 ids have been handed out; on Ok there is an intermediate schedule `mid` = self without the dummy (dummy_deleted, the
 //     Ok-postcondition of delete_dummy) such that the result satisfies the whole postcondition of
 //     mid.spawn_vehicle_for_path(vt, nodes of the dummy tour) (spawn_post: text of the ensures of slices/spawn_vehicle.vs);
 //     corollaries stated directly: the dummy is gone and no other dummy tour changed, one new vehicle of the type under
@@ -507,6 +507,8 @@ impl Clone for TransitionCycle {
         !self.dummy_tours@.contains_key(dummy_idx) ==> r is Err, // @obl C13.spawn_to_replace_dummy.err_if_not_a_dummy
         // C01 / C10 "a vehicle only serves service trips of the vehicle's type": "Nodes are not compatible with vehicle type"
         self.dummy_tours@.contains_key(dummy_idx) && !all_compatible(&self.network, self.dummy_tours@[dummy_idx].nodes@, vehicle_type_idx) ==> r is Err, // @obl C01.spawn_to_replace_dummy.only_compatible_nodes
+        // D11: ids are 16 bit and never reused: when all 2^16 have been handed out the spawn is refused
+        self.vehicle_counter > 0xffff ==> r is Err, // @obl C13.spawn_to_replace_dummy.refuses_instead_of_reusing_an_id
         // C13: the composition -- the result is what spawn_vehicle_for_path(type, nodes of the dummy tour) yields on the
         // intermediate schedule `mid` = self without the dummy tour (delete_dummy's postcondition)
         r is Ok ==> exists|mid: Schedule| #[trigger] self.dummy_deleted(dummy_idx, &mid)
